@@ -4,6 +4,7 @@ package proxy
 // HttpProxy!BuildTarget / Respond / NoRoute prescribe for the case.
 
 import (
+	"errors"
 	"fmt"
 	"net/http"
 	"strings"
@@ -82,12 +83,16 @@ func c07Exec(w *cvxWorld, j *cvxJob) bool {
 		w.plans.Store(j.id, &cvxPlan{Status: status, Hdr: hdr, Body: cs.Att.RespBody, Chunked: cs.Att.RespChunked})
 		defer w.plans.Delete(j.id)
 	}
-	got, err := w.doHTTP(cs, j.id)
+	got, rid, err := w.doHTTP(cs, j.id)
+	if errors.Is(err, errCvxTruncated) {
+		fail("response-truncated", "the answer was cut short on every one of 4 attempts: %v", err)
+		return false
+	}
 	if err != nil {
 		w.errorf("case %d: %v (%s)", j.id, err, c07Describe(cs))
 		return false
 	}
-	seen := w.take(j.id)
+	seen := w.take(rid)
 
 	switch cs.Out.Kind {
 	case "noroute":
@@ -134,7 +139,7 @@ func c07Exec(w *cvxWorld, j *cvxJob) bool {
 		}
 		// end-to-end request headers the client sent arrive unchanged
 		sent := http.Header{}
-		for _, l := range cvxWireHeaders(cs, j.id) {
+		for _, l := range cvxWireHeaders(cs, rid) {
 			k := http.CanonicalHeaderKey(l.Name)
 			sent[k] = append(sent[k], l.Vals...)
 		}
